@@ -365,6 +365,8 @@ cJSON *set_or_call(const struct peer *p, const cJSON *request, enum type what)
 	if (unlikely(e->peer->send_message(e->peer, rendered_message,
 	                                   strlen(rendered_message)) != 0)) {
 		response = create_error_response_from_request(p, request, INTERNAL_ERROR, "reason", "could not send routing information");
+		/* The request is answered now, it must not be answered again by timeout or peer shutdown. */
+		remove_routing_request(routing_request);
 	}
 
 	cjet_free(rendered_message);
